@@ -18,4 +18,7 @@ SEQ_THEOREMS = [P + n for n in [
     "array_resizeInit_full",
     "stream_self_append_no_realloc",
     "isEqual_iff",
+    "isLess_iff_lt",
+    "isLess_orEqual_iff_le",
+    "isGreater_eq_isLess_swap",
 ]]
